@@ -1,6 +1,7 @@
 (* Proofs for C17 (UUID decoding per RFC 9562).  Part 1: bit-field algebra; part 2: what UUIDValue
    displays; part 3: textual forms and white space. *)
 From WI Require Import Lib.Base Lib.Info Lib.Utf8 Lib.Strings Lib.Time Model.Uuid Spec.C17.
+From WI Require Model.Base64 Proofs.Base64.
 From Coq Require Import ZifyN ZifyNat ZifyBool.
 Open Scope N_scope.
 Ltac Zify.zify_post_hook ::= Z.to_euclidean_division_equations.
@@ -1041,3 +1042,110 @@ Proof.
   rewrite (form_length u f Hu) in Hl. destruct f; try discriminate Hl.
   cbn [form app] in Hm. vm_compute in Hm. discriminate Hm.
 Qed.
+
+(* ===================================================================== *)
+(* The variants for very long texts compute the same values              *)
+(* ===================================================================== *)
+Lemma trim_left_fast_eq : forall fuel s, trim_left_fast fuel s = trim_left_space (length fuel) s.
+Proof.
+  induction fuel as [|x f IH]; intro s; cbn [trim_left_fast trim_left_space length]; [reflexivity|].
+  destruct s as [|c r]; [reflexivity|].
+  destruct (decode_rune (c :: r)) as [[v rn] sz]. destruct v; [|reflexivity].
+  destruct (is_space_rune rn); [apply IH|reflexivity].
+Qed.
+Lemma trim_right_fast_eq : forall fuel rs, trim_right_fast fuel rs = trim_right_space_rev (length fuel) rs.
+Proof.
+  induction fuel as [|x f IH]; intro rs; cbn [trim_right_fast trim_right_space_rev length]; [reflexivity|].
+  destruct (last_space rs); [apply IH|reflexivity].
+Qed.
+Lemma trim_space_fast_eq : forall s, trim_space_fast s = trim_space s.
+Proof.
+  intro s. unfold trim_space_fast, trim_space. cbv zeta.
+  rewrite <- !rev_alt, trim_left_fast_eq, trim_right_fast_eq, rev_length. reflexivity.
+Qed.
+
+Lemma take_length_min {A} : forall n (l : list A), length (take n l) = Nat.min n (length l).
+Proof. induction n; destruct l; cbn [take length Nat.min]; auto. Qed.
+Lemma len46 {A} (s : list A) k : (k < 46)%nat -> Nat.eqb (length (take 46 s)) k = Nat.eqb (length s) k.
+Proof.
+  intro H. rewrite take_length_min.
+  destruct (Nat.eqb_spec (length s) k), (Nat.eqb_spec (Nat.min 46 (length s)) k); try reflexivity; lia.
+Qed.
+Lemma parse_fast_eq : forall s, parse_fast s = parse s.
+Proof. intro s. unfold parse_fast, parse. cbv zeta. rewrite !len46 by lia. reflexivity. Qed.
+Lemma parse_text_fast_eq : forall c data, parse_text_fast c data = parse_text_gen c data.
+Proof.
+  intros. unfold parse_text_fast, parse_text_gen. cbv zeta.
+  rewrite trim_space_fast_eq, parse_fast_eq, len46 by lia. reflexivity.
+Qed.
+Theorem fast_same : forall c data,
+  is_uuid_fast c data = is_uuid_gen c data /\ uuid_value_fast c data = uuid_value_gen c data.
+Proof.
+  intros. unfold is_uuid_fast, is_uuid_gen, uuid_value_fast, uuid_value_gen.
+  rewrite parse_text_fast_eq. split; reflexivity.
+Qed.
+
+(* ===================================================================== *)
+(* Purity: the report is a function of the TEXT, wherever the text sits   *)
+(* ===================================================================== *)
+Theorem answers_pure : forall A (f : bytes -> A) steps b, Model.Base64.steps_fit (length b) steps = true ->
+  answers_in_place f b steps = map (fun s => f (snd s)) steps.
+Proof.
+  intros A f steps b H. unfold answers_in_place.
+  rewrite <- (map_map fst f), <- (map_map snd f). f_equal.
+  exact (Proofs.Base64.reuse_reads_what_was_written steps b H).
+Qed.
+
+Lemma report_window : forall pre t post,
+  uuid_report (Model.Base64.window (length pre) (length t) (pre ++ t ++ post)) = uuid_report t.
+Proof. intros. rewrite Proofs.Base64.window_app. reflexivity. Qed.
+
+Theorem report_pure_reuse : forall steps b, Model.Base64.steps_fit (length b) steps = true ->
+  answers_in_place uuid_report b steps = map (fun s => uuid_report (snd s)) steps.
+Proof. intros. apply answers_pure. assumption. Qed.
+
+(* [text] is one spelling of the UUID value [u]: white space, one of the four forms in some letter case, white space *)
+Definition spells (text u : bytes) : Prop :=
+  uuid_ok u = true /\ exists f t cps1 cps2,
+    same_up_to_case t (form f u) /\ Forall is_ws cps1 /\ Forall is_ws cps2 /\
+    text = flat_map encode_rune cps1 ++ t ++ flat_map encode_rune cps2.
+
+Theorem reuse_describes : forall steps b us, Model.Base64.steps_fit (length b) steps = true ->
+  Forall2 (fun s u => spells (snd s) u) steps us ->
+  answers_in_place uuid_report b steps = map (fun u => (true, Ok (describe u))) us.
+Proof.
+  intros steps b us Hfit H. rewrite report_pure_reuse by exact Hfit. clear Hfit.
+  induction H as [|s u steps us Hs _ IH]; [reflexivity|].
+  cbn [map]. f_equal; [|exact IH].
+  destruct Hs as (Hu & f & t & c1 & c2 & Hm & H1 & H2 & ->).
+  destruct (forms_accepted u f t c1 c2 Hu Hm H1 H2) as [Ha Hb].
+  unfold uuid_report. cbv zeta in Ha, Hb. rewrite Ha, Hb. reflexivity.
+Qed.
+
+(* and a text that is no spelling of any UUID is answered (false, error), wherever it sits *)
+Theorem reuse_rejects : forall steps b, Model.Base64.steps_fit (length b) steps = true ->
+  forall k s, nth_error steps k = Some s -> (forall u, ~ spells (snd s) u) ->
+  exists e, nth_error (answers_in_place uuid_report b steps) k = Some (false, Err e).
+Proof.
+  intros steps b Hfit k s Hk Hno. rewrite report_pure_reuse by exact Hfit.
+  rewrite nth_error_map, Hk. cbn [option_map]. unfold uuid_report.
+  destruct (is_uuid (snd s)) eqn:E.
+  - exfalso. destruct (accepted_text_shape _ E) as (u & f & t & c1 & c2 & Hu & Hm & H1 & H2 & Heq).
+    apply (Hno u). split; [exact Hu|]. exists f, t, c1, c2. auto.
+  - unfold is_uuid, is_uuid_gen in E. unfold uuid_value, uuid_value_gen.
+    destruct (parse_text_gen fixed (snd s)) as [u|e|e] eqn:P; cbn in E; try discriminate.
+    + exists e. reflexivity.
+    + exfalso. (* the model has no panic *)
+      unfold parse_text_gen in P. cbv zeta in P.
+      destruct (fx_braces fixed && _ && _) in P; [discriminate|].
+      unfold parse in P. repeat match type of P with (if ?c then _ else _) = _ => destruct c end;
+        unfold parse36 in P; repeat match type of P with match ?x with _ => _ end = _ => destruct x end; discriminate.
+Qed.
+
+Definition i_desc_of (r : result info) : option bytes := match r with Ok i => Some (i_desc i) | _ => None end.
+Lemma reuse_example :
+  answers_in_place (fun t => i_desc_of (uuid_value t)) (repeat 0 36)
+    [(0%nat, bs "f47ac10b-58cc-4372-a567-0e02b2c3d479"); (0%nat, bs "017f22e2-79b0-7cc3-98c4-dc0c0c07398f");
+     (0%nat, bs "this line is not a UUID at all, ok?!"); (0%nat, bs "017F22E2-79B0-7CC3-98C4-DC0C0C07398F")]
+  = [Some (bs "UUID v4 (random)"); Some (bs "UUID v7 (Unix epoch time)"); None; Some (bs "UUID v7 (Unix epoch time)")].
+Proof. vm_compute. reflexivity. Qed.
